@@ -2,11 +2,18 @@
 Driver side of the schema-1.x track commands (mirror of harness/djv_db.cpp's
 `create / mktrack / update / snap / get / set` and harness/djv_tracksv1.cpp):
 stateful mode `tracksv1` running the Model, plus stateless Spec commands
-`v1spec.normalize` / `v1spec.normfield` used by the direct oracle.
+`v1spec.normalize` / `v1spec.normfield` / `v1spec.putfield` used by the direct
+oracle.  After every state-changing command the mode re-checks, on the rows of
+the track concerned, that the value-level codec model agrees with the
+byte-level one and that the invariant `Inv` of the C06 theorems holds.
 -/
 import EngineModel.Driver.Loop
 import EngineModel.Driver.Values
 import EngineModel.TracksV1.SpecFields
+import EngineModel.TracksV1.SpecLens
+import EngineModel.TracksV1.Accept
+import EngineModel.TracksV1.SpecLink
+import EngineModel.TracksV1.Txn
 
 namespace Drv
 namespace TracksV1
@@ -193,23 +200,43 @@ def splitField (toks : List String) : Option (Field × List String) :=
 structure St where
   db : Option Db := none
   vars : List (String × Int) := []
+  fault : Option Nat := none     -- `fault k`: the next create_track / update runs statement by statement (Txn.lean)
+  fired : Bool := false
 
 def lookupVar (st : St) (v : String) : Option Int := (st.vars.find? (·.1 == v)).map (·.2)
 
 def bad (st : St) (why : String) : St × String := (st, "bad-op " ++ why)
 
-def checkCodec (d : Db) (id : Int) : Option String :=
+/-- `expectClean`: the theorems (`v1_C06_clean_db`) say the rows written must be `Clean` — after
+`create_track` / `update` from a snapshot without NaN and after a setter call on clean rows.  With hardware
+doubles for `FOps` this samples the hypothesis `FloatLaw` (which is assumed, not proved, of the hardware). -/
+def checkCodec (d : Db) (id : Int) (expectClean : Bool := false) : Option String :=
   match d.rows id with
   | some r =>
+    if !Inv r then some "bad-op invariant-broken" else
+    if expectClean && !Clean r then some "bad-op clean-broken" else
     match r.perf with
     | some p => if codecAgree p then none else some "bad-op codec-mismatch"
     | none => none
   | none => none
 
-def finishDb (st : St) (d : Db) (id : Int) (msg : String) : St × String :=
-  match checkCodec d id with
+def finishDb (st : St) (d : Db) (id : Int) (msg : String) (expectClean : Bool := false) : St × String :=
+  match checkCodec d id expectClean with
   | some e => ({ st with db := some d }, e)
   | none => ({ st with db := some d }, msg)
+
+def rowsClean (d : Db) (id : Int) : Bool :=
+  match d.rows id with
+  | some r => Clean r
+  | none => true
+
+/-- One instance of each law of `FloatLaw` on the hardware doubles. -/
+def floatLawAt (b : Bits) (n : Nat) : Bool :=
+  (!Fl.absLt63 b || (Fl.toI64 (fops.ceil b)).isSome) &&
+  !F64.isNaN (fops.ofU64 n) &&
+  (n == 0 || decide (18446744073709551616 ≤ n) || !F64.isZero (fops.ofU64 n)) &&
+  !F64.isNaN (fops.ofI64 (Int.ofNat n)) && !F64.isNaN (fops.ofI64 (-(Int.ofNat n))) &&
+  !F64.isNaN (fops.div (fops.ofU64 n) (fops.ofU64 1024))
 
 def step (st : St) (cmd : String) (args : List String) : St × String :=
   match cmd, args with
@@ -217,21 +244,65 @@ def step (st : St) (cmd : String) (args : List String) : St × String :=
     match Schema.ofName sch with
     | some s => ({ db := some ⟨s, []⟩, vars := [] }, "ok")
     | none => bad st "schema"
+  | "fault", [k] =>
+    match k.toNat? with
+    | some n => ({ st with fault := some n, fired := false }, "ok")
+    | none => bad st "fault"
+  | "fault.status", [] =>
+    ({ st with fault := none, fired := false }, "ok fired=" ++ (if st.fired then "1" else "0"))
   | "mktrack", v :: toks =>
     match st.db, runP pSnap toks with
     | some d, some x =>
+      -- under `fault k`: the statement-level run; what it leaves is what `v1_C01_txn_create` says
+      match st.fault, prepare fops x with
+      | some k, .ok pr =>
+        let id := nextId d
+        let out := EngineModel.Spec.Txn.call (some k) false (writeCmds fops d.schema x pr id false) d
+        let fired := out.trace.any (·.injected)
+        let st1 := { st with fired := fired, db := some out.conn.committed }
+        if out.raised then
+          if fired then (st1, "throw sqlite_error") else
+          match dbCreate fops d x with
+          | .throw e => (st1, "throw " ++ e.toString)
+          | _ => (st1, "bad-op txn-mismatch")
+        else
+          match dbCreate fops d x with
+          | .ok (d', id') =>
+            if id' = id && d'.tracks.length = out.conn.committed.tracks.length then
+              finishDb { st1 with vars := (v, id) :: st.vars.filter (·.1 != v) } out.conn.committed id
+                ("ok id=" ++ toString id) (Spec.NoNaN x)
+            else (st1, "bad-op txn-mismatch")
+          | _ => (st1, "bad-op txn-mismatch")
+      | _, _ =>
       match dbCreate fops d x with
       | .ok (d', id) =>
         let st' := { st with vars := (v, id) :: st.vars.filter (·.1 != v) }
-        finishDb st' d' id ("ok id=" ++ toString id)
+        finishDb st' d' id ("ok id=" ++ toString id) (Spec.NoNaN x)
       | .throw e => (st, "throw " ++ e.toString)
       | .ub u => (st, "ub " ++ u.toString)
     | _, _ => bad st "mktrack"
   | "update", v :: toks =>
     match st.db, lookupVar st v, runP pSnap toks with
     | some d, some id, some x =>
+      match st.fault, prepare fops x with
+      | some k, .ok pr =>
+        let out := EngineModel.Spec.Txn.call (some k) false (writeCmds fops d.schema x pr id true) d
+        let fired := out.trace.any (·.injected)
+        let st1 := { st with fired := fired, db := some out.conn.committed }
+        if out.raised then
+          if fired then (st1, "throw sqlite_error") else
+          match dbUpdate fops d id x with
+          | .throw e => (st1, "throw " ++ e.toString)
+          | _ => (st1, "bad-op txn-mismatch")
+        else
+          match dbUpdate fops d id x with
+          | .ok d' =>
+            if d'.rows id == out.conn.committed.rows id then finishDb st1 out.conn.committed id "ok" (Spec.NoNaN x)
+            else (st1, "bad-op txn-mismatch")
+          | _ => (st1, "bad-op txn-mismatch")
+      | _, _ =>
       match dbUpdate fops d id x with
-      | .ok d' => finishDb st d' id "ok"
+      | .ok d' => finishDb st d' id "ok" (Spec.NoNaN x)
       | .throw e => (st, "throw " ++ e.toString)
       | .ub u => (st, "ub " ++ u.toString)
     | _, _, _ => bad st "update"
@@ -267,10 +338,30 @@ def step (st : St) (cmd : String) (args : List String) : St × String :=
       | some r => ({ st with db := some { d with tracks := aset id { r with perf := none } d.tracks } }, "ok")
       | none => bad st "rmperf"
     | _, _ => bad st "rmperf"
+  | "v1.skewgrid", [v] =>
+    -- default grid made different from the adjusted one (as Engine does when a grid is adjusted)
+    match st.db, lookupVar st v with
+    | some d, some id =>
+      match d.rows id with
+      | some r =>
+        match r.perf with
+        | some p =>
+          let dflt : List GMarker := if p.beat.adj.isEmpty then [⟨0, 0⟩, ⟨4, 0x40f5888000000000⟩] else []
+          let r' := { r with perf := some { p with beat := { p.beat with dflt := dflt } } }
+          finishDb st { d with tracks := aset id r' d.tracks } id "ok"
+        | none => (st, "ok")
+      | none => bad st "skewgrid"
+    | _, _ => bad st "skewgrid"
+  | "rmtrack", [v] =>
+    match st.db, lookupVar st v with
+    | some d, some id =>
+      ({ st with db := some (dbRemove d id) }, "ok")
+    | _, _ => bad st "rmtrack"
   | "get", v :: toks =>
     match st.db, lookupVar st v with
     | some d, some id =>
       match toks with
+      | ["valid"] => (st, if dbIsValid d id then "ok 1" else "ok 0")
       | ["filename"] =>
         (st, match d.rows id with
           | some r => "ok " ++ hexBytes (getDerived r .filename)
@@ -291,9 +382,12 @@ def step (st : St) (cmd : String) (args : List String) : St × String :=
       | some (f, rest) =>
         match runP (parseVal f) rest with
         | some val =>
+          -- `v1_C06_accepts`: on clean rows the explicit guard decides the outcome
+          let cl := rowsClean d id
+          let acc := accepts d id f val
           match dbSet fops d id f val with
-          | .ok d' => finishDb st d' id "ok"
-          | .throw e => (st, "throw " ++ e.toString)
+          | .ok d' => if cl && !acc then (st, "bad-op accepts-mismatch") else finishDb st d' id "ok" cl
+          | .throw e => if cl && acc then (st, "bad-op accepts-mismatch") else (st, "throw " ++ e.toString)
           | .ub u => (st, "ub " ++ u.toString)
         | none => bad st "set value"
       | none => bad st "set field"
@@ -323,6 +417,37 @@ def specTable (cmd : String) (args : List String) : Option String :=
           | none => "ok reject"
         | none => "bad-op v1spec.normfield value"
       | none => "bad-op v1spec.normfield field"
+  | "v1spec.putfield", toks =>
+    -- the C06 lens on a snapshot: `<field> [index] <value> <snapshot>` → the snapshot after an accepted call
+    some <| match splitField toks with
+      | some (f, rest) =>
+        match runP (do let v ← parseVal f; let y ← pSnap; pure (v, y)) rest with
+        | some (v, y) =>
+          match Spec.normField f v with
+          | some w => "ok " ++ sSnap (Spec.putField y f w)
+          | none => "ok reject"
+        | none => "bad-op v1spec.putfield value"
+      | none => "bad-op v1spec.putfield field"
+  | "v1spec.normalizenan", sch :: toks =>
+    -- `normalize` extended to NaN (what the library does, `v1_C01_nan_total`)
+    some <| match Schema.ofName sch, runP pSnap toks with
+      | some s, some x =>
+        match Spec.normalizeNaN s x with
+        | some y => "ok " ++ sSnap y
+        | none => "ok reject"
+      | _, _ => "bad-op v1spec.normalizenan"
+  | "v1spec.accepts", an :: toks =>
+    -- the value/row part of `Spec.callAccepted`: `<is-analysed 0|1> <field> [index] <value>`
+    some <| match splitField toks with
+      | some (f, rest) =>
+        match runP (parseVal f) rest with
+        | some v => if (!f.blobSetter || an == "1") && valueOk f v then "ok 1" else "ok 0"
+        | none => "bad-op v1spec.accepts value"
+      | none => "bad-op v1spec.accepts field"
+  | "v1spec.floatlaw", [b, n] =>
+    some <| match parseHex64 b, n.toNat? with
+      | some bb, some nn => if floatLawAt bb nn then "ok 1" else "ok 0"
+      | _, _ => "bad-op v1spec.floatlaw"
   | "v1spec.nonan", toks =>
     some <| match runP pSnap toks with
       | some x => if Spec.NoNaN x then "ok 1" else "ok 0"
